@@ -1,6 +1,6 @@
 (* C15 - the property theorems, nothing else. *)
 From Coq Require Import Sorting.Sorted.
-From CfdmV Require Import Common.Base C15.Model C15.Spec C15.Lemmas.
+From CfdmV Require Import Common.Base C15.Model C15.Spec C15.Lemmas C15.NormIds C15.Mesh C15.MeshLemmas.
 Open Scope Z_scope.
 
 (* Edge and face cells: the domain topology has the shape and the padding of the
@@ -106,17 +106,101 @@ Theorem C15_normalise_relabels :
 Proof. exact normalise_cells_relabels. Qed.
 Print Assumptions C15_normalise_relabels.
 
-(* Point cells and cell connectivity (Topology._normalise_cell_ids).
-   Full statement: for every array a whose first column holds distinct identifiers,
-     normalise_ids s rm a = Ok b -> normalise_ids s rm b = Ok b.
-   Proved here: the second half of that argument - an array in canonical form (first column
-   start_index, start_index + 1, ..., every value within that range) is returned unchanged.
-   Missing: that the relabelling loop always produces the canonical form; the harness checks
-   that on every observed result (ids, range, idempotence) instead. *)
-Theorem C15_normalise_ids_idempotent_partial :
-  forall s a n, s = 0 \/ s = 1 ->
-  first_col a = Some (zseq s (S n)) ->
-  Forall (fun v => s <= v <= s + Z.of_nat n) (all_present a) ->
-  normalise_ids s false a = Ok a.
-Proof. exact normalise_ids_fixpoint. Qed.
-Print Assumptions C15_normalise_ids_idempotent_partial.
+(* ... also with remove_empty_columns, for rectangular arrays (any result is a fixed point). *)
+Theorem C15_normalise_idempotent_rm :
+  forall s rm w a b, s = 0 \/ s = 1 -> rect w a ->
+  normalise_cells s rm a = Ok b -> normalise_cells s rm b = Ok b.
+Proof. exact normalise_cells_idem_rm. Qed.
+Print Assumptions C15_normalise_idempotent_rm.
+
+(* Point cells and cell connectivity (Topology._normalise_cell_ids), full statement: for
+   every array whose rows start with an identifier - any start index, any padding pattern,
+   identifiers in any order, negative or repeated, with or without remove_empty_columns -
+   the normalisation succeeds; the identifier column of the result numbers every cell by
+   the position of the first cell with its identifier, counted from the start index
+   (idcol), every other value left is one of those numbers; for distinct identifiers that
+   is the canonical form start, start + 1, ... with all values in range; and a second
+   normalisation with the same parameters returns the result unchanged. *)
+Theorem C15_normalise_ids_canonical :
+  forall si rm a id0 rest, first_col a = Some (id0 :: rest) ->
+  exists b, normalise_ids si rm a = Ok b /\
+    first_col b = Some (idcol (s01 si) (id0 :: rest)) /\
+    (forall v, In v (all_present b) -> In v (idcol (s01 si) (id0 :: rest))) /\
+    (NoDup (id0 :: rest) ->
+       first_col b = Some (zseq (s01 si) (length (id0 :: rest))) /\
+       forall v, In v (all_present b) -> s01 si <= v < s01 si + Z.of_nat (length (id0 :: rest))) /\
+    normalise_ids si rm b = Ok b.
+Proof. exact normalise_ids_full. Qed.
+Print Assumptions C15_normalise_ids_canonical.
+
+(* Whatever the array (also one for which no identifier column can be read): a result of
+   _normalise_cell_ids is a fixed point of _normalise_cell_ids. *)
+Theorem C15_normalise_ids_idempotent :
+  forall si rm a b, normalise_ids si rm a = Ok b -> normalise_ids si rm b = Ok b.
+Proof. exact normalise_ids_idem. Qed.
+Print Assumptions C15_normalise_ids_idempotent.
+
+(* With repeated identifiers the column is not start, start + 1, ... (cells 5, 5, 7 become
+   0, 0, 2): the canonical form in the narrow sense needs distinct identifiers. *)
+Theorem C15_normalise_ids_repeated_refuted :
+  exists a b, normalise_ids 0 false a = Ok b /\ first_col b <> Some (zseq 0 3) /\ length a = 3%nat.
+Proof. exact normalise_ids_repeated_refuted. Qed.
+Print Assumptions C15_normalise_ids_repeated_refuted.
+
+(* Rows and padding.  The domain topology of edge / face cells and the cell connectivity have
+   one row per row of the (re-ordered) connectivity variable, the point topology one row per
+   mesh node (also for nodes of no cell), and bounds gathered from the nodes have exactly
+   the padding mask - hence the shape - of the connectivity and of the domain topology. *)
+Theorem C15_rows_and_masks :
+  forall si cd stored coords,
+  length (dt_cells si cd stored) = length (select cd stored) /\
+  length (cell_conn si cd stored) = length (select cd stored) /\
+  length (select cd stored) = (if cd then width stored else length stored) /\
+  (forall ff n, length (point_topology ff n si cd stored) = n) /\
+  (forall b, bounds si cd stored coords = Ok b ->
+     mask_of b = mask_of (select cd stored) /\ mask_of b = mask_of (dt_cells si cd stored) /\
+     length b = length (select cd stored)).
+Proof.
+  intros. split; [apply dt_cells_length|]. split; [apply cell_conn_length|]. split; [apply select_length|].
+  split; [intros; apply point_topology_length|]. intros b Hb.
+  destruct (bounds_mask si cd stored coords b Hb) as [H1 H2]. split; [exact H1|]. split; [exact H2|].
+  apply mask_length. exact H1.
+Qed.
+Print Assumptions C15_rows_and_masks.
+
+(* The reader's decisions (Mesh.v: _ugrid_check_mesh_topology, mesh.ncdim,
+   _ugrid_cell_dimension, choice of connectivity per location, start index per variable).
+   For a mesh the checks accept, the domain topology and the node-gathered bounds of every
+   location are given as many rows as the location's domain axis has elements; and a
+   connectivity variable stored with its declared shape, read with the storage order the
+   decision chose, has exactly that many rows. *)
+Theorem C15_accepted_mesh_well_shaped :
+  (forall m ls, parse_mesh m = Ok (Some ls) -> forall s, In (Some s) ls ->
+     fst (fst (ls_dt s)) = ls_axis s /\ (forall b, ls_bounds s = Some b -> fst (fst b) = ls_axis s)) /\
+  (forall m lname conn d0 d1 rows tr (a : arr),
+     var_dims m conn = Some [d0; d1] -> conn_cells m lname conn = Ok (rows, tr) ->
+     Z.of_nat (length a) = dim_size m d0 -> rect (Z.to_nat (dim_size m d1)) a -> a <> [] -> 0 <= dim_size m d1 ->
+     forall si, Z.of_nat (length (dt_cells si tr a)) = rows).
+Proof.
+  split; [exact parse_mesh_rows|]. intros. rewrite dt_cells_length.
+  eapply conn_cells_shape; eassumption.
+Qed.
+Print Assumptions C15_accepted_mesh_well_shaped.
+
+(* No check ties face_face_connectivity to the face dimension: a mesh is accepted whose
+   cell connectivity has another number of rows than there are faces ... *)
+Theorem C15_cell_connectivity_rows_refuted :
+  exists m n e s c, parse_mesh m = Ok (Some [n; e; Some s]) /\ ls_cc s = Some c /\ fst (fst c) <> ls_axis s.
+Proof. exact cc_rows_refuted. Qed.
+Print Assumptions C15_cell_connectivity_rows_refuted.
+
+(* ... and under the guard that the variable spans the face dimension it has one row per face. *)
+Theorem C15_cell_connectivity_rows :
+  forall m s c ff i dims d,
+  summarise m Face = Ok (Some s) -> ls_cc s = Some c ->
+  assoc "face_face_connectivity"%string (mm_attrs m) = Some ff ->
+  var_dims m ff = Some dims -> cell_dimension m "face" ff = Ok i -> nth_error dims i = Some d ->
+  loc_dim m Face = Ok (Some d) ->
+  fst (fst c) = ls_axis s.
+Proof. exact cc_rows_guarded. Qed.
+Print Assumptions C15_cell_connectivity_rows.
